@@ -279,9 +279,12 @@ static void tolerance_substitution(const Library& ref, const Library& got, int64
                     // origin the cancellation error of |p|^2 - |ref|^2 exceeds the grid
                     v.keys.insert("is_circle:far-from-origin");
                     v.notes.push_back(buf);
-                } else if (diag_user * diag_user < tol_user) {
-                    // is_circle tests fabs(|p-c|^2 - r^2) >= tolerance: squared lengths against a length.  When the
-                    // polygon is smaller than sqrt(tolerance) in user units the test cannot fail and any shape passes
+                } else if (diag_user < 1.0) {
+                    // is_circle tests fabs(|p-c|^2 - r^2) >= tolerance: squared lengths against a length.  For shapes
+                    // smaller than one user unit |d^2 - r^2| = |d - r| (d + r) < |d - r|: the test is laxer than the
+                    // distance it stands for (vacuous once the shape is smaller than sqrt(tolerance)) and any shape with
+                    // short enough edges passes
+                    (void)tol_user;
                     v.keys.insert("is_circle:radial-test-units");
                     v.notes.push_back(buf);
                 } else {
@@ -559,9 +562,12 @@ static void run_case(Out& out, const std::string& kind, const std::string& paylo
     } else verdict = "ok";
     if (verdict != "ok") {
         out.count("verdict:" + verdict.substr(5, verdict.find(' ', 5) - 5));
-        // keep the failing file
-        std::vector<uint8_t> f = slurp(g_outdir + "/x.oas");
-        spit(g_outdir + "/fail_" + id + ".oas", f);
+        // keep the failing file of unexplained failures (at most 50)
+        static int kept = 0;
+        if (verdict.compare(0, 19, "FAIL oas-roundtrip ") == 0 && kept++ < 50) {
+            std::vector<uint8_t> f = slurp(g_outdir + "/x.oas");
+            spit(g_outdir + "/fail_" + id + ".oas", f);
+        }
     } else out.count("verdict:ok");
     out.P(id, verdict);
 }
